@@ -10,6 +10,8 @@ use std::sync::Mutex;
 use serde_json::{json, Value as J};
 
 mod docopt_h;
+#[path = "pinned_docopt/mod.rs"]
+mod pinned_docopt;
 mod find_h;
 mod fakepacman;
 
